@@ -92,3 +92,61 @@ Qed.
 Definition mro_ImportError : mro := ["ImportError"; "Exception"; "BaseException"; "object"]%string.
 Definition mro_ModuleNotFoundError : mro := ("ModuleNotFoundError"%string :: mro_ImportError).
 Definition mro_FileNotFoundError : mro := ["FileNotFoundError"; "OSError"; "Exception"; "BaseException"; "object"]%string.
+
+(* ================================================================================================
+   The other try block of Engine.restart: IMPORTING the hook module (hooks/restart.py or the named
+   file; it is executed again at every restart attempt) and reading its Restart attribute:
+       except (ImportError, IOError)  -> no hook of the package: the DLMESORestart fallback is called
+   Anything else the module raises while it is executed (SyntaxError, ValueError ...) and the
+   AttributeError of a module without Restart are not handled there: they leave Engine.restart
+   after the attempt has been counted, Controller._restartComponent catches them and keeps its
+   initial verdict RestartCouldNotInitiate - the outcome of a failed hook.
+   [hook_after_load l r h] is the outcome, in terms of [hookout], of an exit with reason r whose
+   module load goes as l and whose Restart (if it gets called) behaves as h, for a configuration
+   whose hook file exists ([custom_hook]). *)
+Inductive load :=
+  | LoadOk
+  | LoadRaises (m : mro)      (* executing the module raises *)
+  | LoadNoRestart.            (* the module defines no Restart *)
+
+Definition import_handled (m : mro) : bool := isinstance m "ImportError" || isinstance m "OSError".
+
+Definition hook_after_load (l : load) (r : reason) (h : hookout) : hookout :=
+  match l with
+  | LoadOk => h
+  | LoadRaises m => if import_handled m then default_hook r else HRaiseOther
+  | LoadNoRestart => HRaiseOther
+  end.
+
+(* a module that cannot be imported (ImportError / IOError) is a missing module, whatever the
+   configuration and state: the exit is handled as with hook_loadable = false *)
+Definition unloadable (c : cfg) : cfg :=
+  {| max_restarts := max_restarts c; hook_file := hook_file c; hook_loadable := false; hook_on := hook_on c;
+     is_sim := is_sim c; sim_restart := sim_restart c; is_rep := is_rep c; shutdown_on := shutdown_on c |}.
+
+Lemma hook_called_unloadable c s r : hook_called (unloadable c) s r = hook_called c s r.
+Proof. reflexivity. Qed.
+
+Lemma eff_hook_unloadable c r h : eff_hook (unloadable c) r h = default_hook r.
+Proof. unfold eff_hook, unloadable; cbn. destruct (hook_file c); reflexivity. Qed.
+
+Lemma load_import_error_is_missing c s r m h stable ok :
+  import_handled m = true ->
+  ctl_restart c s r (hook_after_load (LoadRaises m) r h) stable ok = ctl_restart (unloadable c) s r h stable ok.
+Proof.
+  intros Hm. unfold hook_after_load. rewrite Hm.
+  unfold ctl_restart, comp_restart, repeating_restart_listed, engine_restart.
+  change (eff_max (unloadable c)) with (eff_max c).
+  cbn [unloadable max_restarts hook_file hook_loadable hook_on is_sim sim_restart is_rep shutdown_on].
+  destruct (hook_file c), (hook_loadable c); reflexivity.
+Qed.
+
+(* a broken module (anything else raised at import, or no Restart) is a failed hook *)
+Lemma load_broken_refused c s r l h stable ok :
+  hook_called c s r = true -> custom_hook c = true ->
+  (l = LoadNoRestart \/ exists m, l = LoadRaises m /\ import_handled m = false) ->
+  ctl_restart c s r (hook_after_load l r h) stable ok = (bump s, CouldNotInitiate).
+Proof.
+  intros Hc Hu Hl. rewrite (hook_called_outcome _ _ _ _ _ _ Hc), (eff_hook_custom _ _ _ Hu).
+  destruct Hl as [->|[m [-> Hm]]]; cbn [hook_after_load]; [|rewrite Hm]; reflexivity.
+Qed.
